@@ -289,9 +289,20 @@ class Facts(Walker):
 
     # ---- statements
     def check_divisions(self, node, st):
-        for n in ast.walk(node):
-            if isinstance(n, ast.BinOp) and isinstance(n.op, ast.Div):
-                self.note_division(n, n.right, st)
+        """divisions in an expression; conditional expressions refine the facts of their arms"""
+        if isinstance(node, ast.IfExp):
+            self.check_divisions(node.test, st)
+            t, f = self.split(node.test, st)
+            if t is not None:
+                self.check_divisions(node.body, t)
+            if f is not None:
+                self.check_divisions(node.orelse, f)
+            return
+        if isinstance(node, ast.BinOp) and isinstance(node.op, ast.Div):
+            self.note_division(node, node.right, st)
+        for c in ast.iter_child_nodes(node):
+            if isinstance(c, (ast.expr, ast.keyword, ast.comprehension)):
+                self.check_divisions(c, st)
 
     def note_division(self, node, divisor, st):
         d = self.vn(divisor, st)
